@@ -69,6 +69,18 @@ func buildValue(s jShape, rng *rand.Rand, depth int) interface{} {
 	return nil
 }
 
+// jDeep: a target whose decoding errors carry a long dotted field path (encoding/json names the whole path in an
+// UnmarshalTypeError): whatever the error says, the peer must get status 1007.
+type jDeep struct {
+	K0 struct {
+		AVeryDescriptiveFieldNameForTheOuterLevel struct {
+			AnotherQuiteLongFieldNameOnTheSecondLevel struct {
+				TheInnermostFieldThatHoldsANumber int `json:"the_innermost_field_that_holds_a_number"`
+			} `json:"another_quite_long_field_name_on_the_second_level"`
+		} `json:"a_very_descriptive_field_name_for_the_outer_level"`
+	} `json:"k0"`
+}
+
 type jStruct struct {
 	K0 interface{} `json:"k0"`
 	K1 *string     `json:"k1"`
@@ -88,6 +100,8 @@ func newTarget(t string) interface{} {
 		return new(string)
 	case "struct":
 		return new(jStruct)
+	case "deepstruct":
+		return new(jDeep)
 	case "map":
 		return new(map[string]interface{})
 	}
@@ -213,6 +227,12 @@ func runJSONRow(rep *Report, row jRow, seed int64, held *[]jHeld, hmu *sync.Mute
 		msg = nil
 	case "binaryframe":
 		op = ws.OpBin // the type of the message is not part of the statement's read clause: decoded like any other
+	case "deeptype":
+		// a type mismatch three levels down: the decoder's message names the whole path (well over 100 bytes)
+		msg = []byte(`{"k0":{"a_very_descriptive_field_name_for_the_outer_level":{"another_quite_long_field_name_on_the_second_level":{"the_innermost_field_that_holds_a_number":"not a number"}}}}`)
+	}
+	if row.Target == "deepstruct" && row.Fault == "none" {
+		msg = []byte(`{"k0":{"a_very_descriptive_field_name_for_the_outer_level":{"another_quite_long_field_name_on_the_second_level":{"the_innermost_field_that_holds_a_number":42}}}}`)
 	}
 	send(op, msg)
 	follow := []byte(`{"follow":"up"}`)
